@@ -43,7 +43,7 @@ NM == Len(MeshSeq)
 ASSUME \A i \in 1..NM : ConnOfMesh(MeshSeq[i]) = ConnOfMeshSlow(MeshSeq[i])
 
 NoPar == [elements |-> <<>>, ix |-> <<>>, skips |-> 0, skipb |-> 0, fnum |-> <<>>, fden |-> <<>>, d |-> <<>>,
-          axis |-> 0, c |-> 0, A |-> <<>>, b |-> <<>>, facets |-> <<>>, fv |-> <<>>, ret |-> <<>>, proj |-> <<>>,
+          nrm |-> <<>>, p0 |-> <<>>, nn |-> 0, A |-> <<>>, b |-> <<>>, facets |-> <<>>, fv |-> <<>>, ret |-> <<>>, proj |-> <<>>,
           sign |-> <<>>, xmap |-> <<>>]
 \* projection of a tagged mesh to the abstract mesh of Tags.tla (mirror of harness/tags_common.py: mesh_am)
 ProjAM(tm, c) ==
